@@ -1734,6 +1734,107 @@ def run_wrapper_law(case):
 
 
 # ---------------------------------------------------------------------------------------------
+# stage 9: pauli_expansion is one more description of the same matrix (own _pauli_expansion_ or unitary-derived fallback)
+
+PAULI_1Q = {"I": np.eye(2, dtype=np.complex128), "X": np.array([[0, 1], [1, 0]], dtype=np.complex128),
+            "Y": np.array([[0, -1j], [1j, 0]], dtype=np.complex128), "Z": np.diag([1, -1]).astype(np.complex128)}
+
+
+def pauli_sum(expansion, k):
+    """sum coeff * kron(paulis) of a LinearDict keyed by Pauli words of length k; returns (matrix, None) or (None, problem)."""
+    tot = np.zeros((2 ** k, 2 ** k), dtype=np.complex128)
+    for word, c in expansion.items():
+        if not isinstance(word, str) or len(word) != k or any(ch not in PAULI_1Q for ch in word):
+            return None, f"key {word!r} is not a Pauli word of length {k}"
+        tot = tot + complex(c) * E.kron(*[PAULI_1Q[ch] for ch in word])
+    return tot, None
+
+
+def run_pauli_expansion(case):
+    bi, w = case
+    inf = info((bi, w))
+    if inf.U_exc:
+        return Res(skipped=True, nontrivial=False)
+    nm = name_of((bi, w))
+    vals = [("op", inf.op)]
+    if inf.op.gate is not None and isinstance(inf.op, (cirq.GateOperation, cirq.ControlledOperation)):
+        vals.append(("op.gate", inf.op.gate))
+    nontriv = False
+    for label, val in vals:
+        try:
+            ex = cirq.pauli_expansion(val, default=None)
+        except TypeError as e:
+            return bad(f"{nm}: cirq.pauli_expansion({label}, default=None) raised instead of returning the default: TypeError: {e}", kind="pauli_expansion_raises")
+        if ex is None:
+            if inf.U is not None:
+                return bad(f"{nm}: a unitary on {inf.k} qubits, but cirq.pauli_expansion({label}, default=None) is None", kind="pauli_expansion_missing")
+            continue
+        if inf.U is None:
+            return bad(f"{nm}: cirq.pauli_expansion({label}) answers {dict(ex)} although cirq.unitary(op, None) is None", kind="pauli_expansion_without_unitary")
+        tot, problem = pauli_sum(ex, inf.k)
+        if problem:
+            return bad(f"{nm}: cirq.pauli_expansion({label}): {problem}", kind="pauli_expansion_keys")
+        if not np.allclose(tot, inf.U, atol=ATOL, rtol=0):
+            conj = np.allclose(pauli_sum({k_: np.conj(c) for k_, c in ex.items()}, inf.k)[0], inf.U, atol=ATOL, rtol=0)
+            return bad(f"{nm}: sum coeff*kron(paulis) of cirq.pauli_expansion({label}) != cirq.unitary(op) (exact, not up to phase); max |diff| = "
+                       f"{np.max(np.abs(tot - inf.U)):.3g}" + (" [coefficients are complex-conjugated]" if conj else "") +
+                       f"; own _pauli_expansion_: {getattr(val, '_pauli_expansion_', None) is not None}", kind="pauli_expansion_mismatch")
+        nontriv |= any(abs(complex(c).imag) > 1e-6 for c in ex.values())
+    return good(nontrivial=nontriv)
+
+
+def pauli_expansion_cases(descs):
+    out = []
+    for desc in descs:
+        inf = info(desc)
+        # parameterised values may answer with symbolic coefficients: outside this (numeric) comparison
+        if 1 <= inf.k <= 3 and all(d == 2 for d in inf.shape) and not cirq.is_parameterized(inf.op):
+            out.append(desc)
+    return out
+
+
+def run_operator_space(case):
+    """expand_matrix_in_orthogonal_basis / matrix_from_basis_coefficients / pow_pauli_combination on generic complex inputs."""
+    kind = case[0]
+    if kind == "expand":
+        _, n, salt, hermitian = case
+        D = 2 ** n
+        m = generic_tensor((D, D), 30 + salt).copy() * D
+        if hermitian:
+            m = m + m.conj().T
+        basis = cirq.kron_bases(cirq.PAULI_BASIS, repeat=n)
+        ex = cirq.expand_matrix_in_orthogonal_basis(m, basis)
+        for word, c in ex.items():
+            P = E.kron(*[PAULI_1Q[ch] for ch in word])
+            ref = np.trace(P.conj().T @ m) / D
+            if abs(complex(c) - ref) > ATOL:
+                return bad(f"expand_matrix_in_orthogonal_basis: coefficient of {word} is {complex(c)} but tr(P^dag m)/{D} = {ref} "
+                           f"(generic {'Hermitian' if hermitian else 'complex'} {D}x{D} matrix)", kind="operator_space_expand")
+        back = cirq.matrix_from_basis_coefficients(ex, basis)
+        if not np.allclose(back, m, atol=ATOL, rtol=0):
+            return bad(f"matrix_from_basis_coefficients(expand_matrix_in_orthogonal_basis(m)) != m for a generic {D}x{D} matrix; max |diff| = "
+                       f"{np.max(np.abs(back - m)):.3g}", kind="operator_space_round_trip")
+        return good(nontrivial=not hermitian)
+    _, salt, exponent = case
+    co = generic_tensor((4,), 40 + salt).copy() * 2
+    ai, ax, ay, az = (complex(x) for x in co)
+    m = ai * PAULI_1Q["I"] + ax * PAULI_1Q["X"] + ay * PAULI_1Q["Y"] + az * PAULI_1Q["Z"]
+    bi_, bx, by, bz = cirq.pow_pauli_combination(ai, ax, ay, az, exponent)
+    got = bi_ * PAULI_1Q["I"] + bx * PAULI_1Q["X"] + by * PAULI_1Q["Y"] + bz * PAULI_1Q["Z"]
+    ref = np.linalg.matrix_power(m, exponent)
+    if not np.allclose(got, ref, atol=1e-7 * max(1.0, np.max(np.abs(ref))), rtol=0):
+        return bad(f"pow_pauli_combination({ai}, {ax}, {ay}, {az}, {exponent}) != matrix power; max |diff| = {np.max(np.abs(got - ref)):.3g}",
+                   kind="pow_pauli_combination")
+    return good(nontrivial=exponent >= 2)
+
+
+def operator_space_cases():
+    out = [("expand", n, salt, h) for n in (1, 2, 3) for salt in range(4) for h in (0, 1)]
+    out += [("pow", salt, e) for salt in range(4) for e in range(0, 7)]
+    return out
+
+
+# ---------------------------------------------------------------------------------------------
 
 
 def stages(tier, seed):
@@ -1745,6 +1846,8 @@ def stages(tier, seed):
     st = [
         CaseStage("flags_and_wrapper_acceptance", descs_cco, run_flags, reset=reset, describe=describe_desc),
         CaseStage("wrapper_laws", law_cases, run_wrapper_law, reset=reset, describe=describe_desc),
+        CaseStage("pauli_expansion", pauli_expansion_cases(descs), run_pauli_expansion, reset=reset, describe=describe_desc),
+        CaseStage("operator_space_helpers", operator_space_cases(), run_operator_space, reset=reset),
         CaseStage("decompose_products", descs, run_decompose, reset=reset, describe=describe_desc),
         CaseStage("kraus_mixture_superoperator", descs, run_channel_descriptions, reset=reset, describe=describe_desc),
         CaseStage("apply_unitary_all_layouts", apply_cases(tier, descs_cco), run_apply, reset=reset, describe=describe_apply),
